@@ -24,6 +24,7 @@ type mTrans struct {
 	sentPre    []ServerID
 	timeoutNowTo    []ServerID
 	timeoutNowFails bool
+	lastTarget      ServerAddress // address the last AppendEntries/InstallSnapshot was sent to
 }
 
 func (t *mTrans) Consumer() <-chan RPC     { return t.consumer }
@@ -32,6 +33,7 @@ func (t *mTrans) AppendEntriesPipeline(id ServerID, target ServerAddress) (Appen
 	return nil, ErrPipelineReplicationNotSupported
 }
 func (t *mTrans) AppendEntries(id ServerID, target ServerAddress, args *AppendEntriesRequest, resp *AppendEntriesResponse) error {
+	t.lastTarget = target
 	if t.onAppend != nil {
 		return t.onAppend(id, args, resp)
 	}
@@ -52,6 +54,7 @@ func (t *mTrans) RequestPreVote(id ServerID, target ServerAddress, args *Request
 	panic("mTrans.RequestPreVote: no handler")
 }
 func (t *mTrans) InstallSnapshot(id ServerID, target ServerAddress, args *InstallSnapshotRequest, resp *InstallSnapshotResponse, data io.Reader) error {
+	t.lastTarget = target
 	if t.onSnapshot != nil {
 		return t.onSnapshot(id, args, resp, data)
 	}
